@@ -7,6 +7,7 @@ import (
 	"runtime/debug"
 	"sort"
 	"strconv"
+	"time"
 )
 
 type propFn func(c *Ctx)
@@ -40,6 +41,15 @@ func runCheck(id, tier, repo, verif string) (code int) {
 		fmt.Printf("VIOLATION property=%s replay=%s\n  load error: %v\n", id, path, err)
 		return 1
 	}
+	// a check that does not converge must still end with a verdict: 10 minutes by default (the slowest check takes
+	// under a minute on the unchanged tree), MIDIVERIF_DEADLINE=<seconds> overrides
+	limit := 600
+	if s := os.Getenv("MIDIVERIF_DEADLINE"); s != "" {
+		if v, err := strconv.Atoi(s); err == nil && v > 0 {
+			limit = v
+		}
+	}
+	checkDeadline = time.Now().Add(time.Duration(limit) * time.Second)
 	c := NewCtx(id, tier, p)
 	func() {
 		defer func() {
